@@ -23,7 +23,7 @@ for sid in sorted(os.listdir(os.path.join(ROOT, 'seeded'))):
     rows.append('| %s | %s | %s | %s | `%s` |' % (
         sid, what, ' '.join(sorted(caught)) or '**none**',
         ' '.join(sorted(tried - caught)) or '-', mech))
-head = ('280 independently written breakages (round 1: two per property, ids '
+head = ('320 independently written breakages (round 1: two per property, ids '
         '`Cxx-a/b`; round 2: three per property, ids `Cxx-r2a/b/c`; round 3, '
         'asked for changes that need two coinciding conditions: two per '
         'property, ids `Cxx-r3a/b`; round 4, asked for two cooperating edits '
@@ -32,7 +32,11 @@ head = ('280 independently written breakages (round 1: two per property, ids '
         'harness exists and asked for changes it would be likely to miss: '
         'three per property, ids `Cxx-r5a/b/c`; round 6, the same with the '
         'hint to use time, global state, odd Python objects, interpreter '
-        'flags and stream kinds: two per property, ids `Cxx-r6a/b`), all '
+        'flags and stream kinds: two per property, ids `Cxx-r6a/b`; round 7, '
+        'told about all of that and asked for purely value-dependent '
+        'breakages in a plain interpreter (numeric coincidences, option '
+        'combinations, state carried between sections, absent / default / '
+        'falsy): two per property, ids `Cxx-r7a/b`), all '
         'confirmed (apply, 176 repository tests pass, demonstration fails '
         'with / passes without). "caught by" lists every quick check that '
         'reported a VIOLATION on a scratch copy with the patch applied (the '
@@ -40,7 +44,7 @@ head = ('280 independently written breakages (round 1: two per property, ids '
         'run); "also run, silent" the others that were tried. The last '
         'column is the first mechanism the tagged check printed.\n\n'
         'First-pass result before any strengthening: round 1 36/40 caught by '
-        'the tagged check, round 2 44/60, round 3 27/40, round 4 30/40, round 5 21/60, round 6 7/40. Each miss was '
+        'the tagged check, round 2 44/60, round 3 27/40, round 4 30/40, round 5 21/60, round 6 7/40, round 7 29/40. Each miss was '
         'analysed and the '
         'check strengthened (never the seeded change adapted): C02 codec '
         'spelling sweep; C07 exact-byte-count and mid-line-cut mechanisms; '
@@ -98,8 +102,18 @@ head = ('280 independently written breakages (round 1: two per property, ids '
         'C06), float statistics (C13), writer-parameter keys in options and '
         'nested default_value (C18), denotation pairs such as {1: x} / '
         '{"1": x} and [..] / (..) (C19), nesting-depth sweep (C08), late '
-        'codecs (C15). After that '
-        '270 of 280 are caught by their tagged check; three of round 6 are '
+        'codecs (C15). (round 7) lone surrogates in JSON strings; metadata '
+        'line_endings in object-model trees (C05); metadata bytes produced '
+        'with another codec than the effective one (C04); producer options '
+        'with negative / zero-padded / huge integers (C03); header lines of '
+        '97-400 bytes in the every-byte cut sweep, lengths of 2^31-1 .. 2^64 '
+        'alone and together with the indent (C07, which also exposed known '
+        'finding F8c); lone surrogates of every range as must-raise text '
+        '(C09); blank lines with the other terminator and containers '
+        'carrying options that are meaningful elsewhere (C10); streaming '
+        'records edited by the consumer (C18); marker words inside diff '
+        'lines (C20). After that '
+        '310 of 320 are caught by their tagged check; three of round 6 are '
         'recorded as not claimed (C06-r6b is the same change as the allowed '
         'patch P8-a; C10-r6a needs -W error on legal input; C10-r6b needs a '
         'stream without tell()), and the other seven '
